@@ -5,7 +5,7 @@
  * Case line:  <op> <curve> <alias> <args...>      (curve, G2 point tokens, scalars: see ep2_common.h)
  *   G1 point  inf | m<k>[/rep] ([k]G1 by ep_mul_basic) | c<seed>[/rep] (first x = seed div 2 + j with a square
  *             right-hand side, y negated for odd seed: a curve point not constructed from the generator) |
- *             r<seed> ([r]c) | o<ell>,<seed> ([(h r)/ell]c) | s<ell>,<seed>,<k> ([k]G1 + o<ell>,<seed>) |
+ *             r<seed> ([r]c) | o<ell>,<seed> (the ell-primary part [(h r)/ell^e]c) | s<ell>,<seed>,<k> ([k]G1 + o<ell>,<seed>) |
  *             xy<x>,<y>[/rep] (VALUES as given);
  *             rep: P | J | p<z> | j<z>
  *   GT elem   one | zero | g<k> (e(G1,G2)^k by the generic fp12_exp) | n<k> (-(g^k)) |
@@ -90,7 +90,7 @@ static void set_point1(ep_t p, char *tok) {
 		*sd++ = 0;
 		vh_bn_set(l, tok + 1);
 		ep_from_seed(p, sd);
-		bn_mul(k, H1, N1); bn_div(k, k, l);
+		bn_mul(k, H1, N1); vh_strip_prime(k, l);
 		ep_mul_basic(p, p, k); ep_norm(p, p);
 		bn_free(l);
 	} else if (tok[0] == 's') {
@@ -102,7 +102,7 @@ static void set_point1(ep_t p, char *tok) {
 		*sd++ = 0; *ks++ = 0;
 		vh_bn_set(l, tok + 1);
 		ep_from_seed(p, sd);
-		bn_mul(k, H1, N1); bn_div(k, k, l);
+		bn_mul(k, H1, N1); vh_strip_prime(k, l);
 		ep_mul_basic(p, p, k);
 		vh_bn_set(k, ks);
 		ep_mul_basic(t1, G1, k);
